@@ -223,8 +223,14 @@ func runScenario(t *testing.T, sc *Scenario, tr *vh.Tracer) {
 				got = []string{}
 			}
 			ret["res"], ret["list"] = class(err), got
-		case "seek":
-			rc, err := repo.Fetch(ctx, g.Descs[n])
+		case "seek", "seekref":
+			var rc io.ReadCloser
+			var err error
+			if op.Op == "seekref" {
+				_, rc, err = repo.Blobs().FetchReference(ctx, g.Descs[n].Digest.String())
+			} else {
+				rc, err = repo.Fetch(ctx, g.Descs[n])
+			}
 			steps := [][]int64{}
 			seekable := false
 			if err == nil {
@@ -296,7 +302,7 @@ func genScenario(rng *rand.Rand, id int) Scenario {
 		n = len(nodes) - 1
 	}
 	sc := Scenario{ID: id, Nodes: nodes, Profile: regfake.Profile{Referrers: rng.Intn(3) != 0, DigestHdr: rng.Intn(4) != 0, Range: rng.Intn(2) == 0,
-		Mount: rng.Intn(2) == 0, PageLimit: rng.Intn(3), RefPageLimit: rng.Intn(3), NoServerFilter: rng.Intn(2) == 0}}
+		Mount: rng.Intn(2) == 0, PageLimit: rng.Intn(3), RefPageLimit: rng.Intn(3), NoServerFilter: rng.Intn(2) == 0, NoLenGet: rng.Intn(3) == 0}}
 	if rng.Intn(3) == 0 {
 		// a manifest under a media type of the user's own, listed in Repository.ManifestMediaTypes; the registry may insist on
 		// the Accept header
@@ -392,7 +398,7 @@ func genScenario(rng *rand.Rand, id int) Scenario {
 		case x < 94:
 			sc.Ops = append(sc.Ops, Op{Op: "tags"})
 		case len(blobs) > 0:
-			o := Op{Op: "seek", N: blobs[rng.Intn(len(blobs))]}
+			o := Op{Op: []string{"seek", "seek", "seekref"}[rng.Intn(3)], N: blobs[rng.Intn(len(blobs))]}
 			for k := 2 + rng.Intn(5); k > 0; k-- {
 				kind := rng.Intn(4)
 				arg := rng.Intn(400)
